@@ -27,6 +27,8 @@ type skCtx struct {
 	named   bool   // msgp-generated style: named results, bare returns
 	resName string // slice path, named results: the name of the []byte result (`o`)
 	deep    bool   // accept recv.Field.Sub as a field
+	elemIdx string // inside `for i := range *z`: the index variable; `(*z)[i].Field` is the element's field
+	listLvl bool   // the body of an EntryList method: the resize statement and the range loop are statements of their own
 	top     bool   // the function body itself, not a nested block
 	last    bool   // the statement is the last one of its block
 }
@@ -79,7 +81,55 @@ func (c *skCtx) recvField(e ast.Expr) (string, bool) {
 			return in.Sel.Name + "." + se.Sel.Name, true
 		}
 	}
+	if c.elemIdx != "" { // (*z)[i].Field / z[i].Field
+		if ix, isIx := se.X.(*ast.IndexExpr); isIx && isIdent(ix.Index, c.elemIdx) && c.isRecvList(ix.X) {
+			return se.Sel.Name, true
+		}
+	}
 	return "", false
+}
+
+// the receiver as a list: `z`, `*z`, `(*z)`
+func (c *skCtx) isRecvList(e ast.Expr) bool {
+	if pe, ok := e.(*ast.ParenExpr); ok {
+		e = pe.X
+	}
+	if st, ok := e.(*ast.StarExpr); ok {
+		e = st.X
+	}
+	return isIdent(e, c.recv)
+}
+
+// `if cap((*z)) >= int(n) { (*z) = (*z)[:n] } else { (*z) = make(EntryList, n) }`
+func (c *skCtx) isResize(st *ast.IfStmt) bool {
+	cond, ok := st.Cond.(*ast.BinaryExpr)
+	if !ok || st.Init != nil || cond.Op != token.GEQ {
+		return false
+	}
+	capc, ok := cond.X.(*ast.CallExpr)
+	if !ok || !isIdent(capc.Fun, "cap") || len(capc.Args) != 1 || !c.isRecvList(capc.Args[0]) {
+		return false
+	}
+	conv, ok := cond.Y.(*ast.CallExpr)
+	if !ok || !isIdent(conv.Fun, "int") || len(conv.Args) != 1 || !isSzVar(conv.Args[0]) {
+		return false
+	}
+	n := conv.Args[0].(*ast.Ident).Name
+	eb, ok := st.Else.(*ast.BlockStmt)
+	if !ok || len(st.Body.List) != 1 || len(eb.List) != 1 {
+		return false
+	}
+	a1, ok1 := st.Body.List[0].(*ast.AssignStmt)
+	a2, ok2 := eb.List[0].(*ast.AssignStmt)
+	if !ok1 || !ok2 || len(a1.Lhs) != 1 || len(a2.Lhs) != 1 || len(a1.Rhs) != 1 || len(a2.Rhs) != 1 || !c.isRecvList(a1.Lhs[0]) || !c.isRecvList(a2.Lhs[0]) {
+		return false
+	}
+	sl, ok := a1.Rhs[0].(*ast.SliceExpr)
+	if !ok || sl.Low != nil || sl.Max != nil || !isIdent(sl.High, n) || !c.isRecvList(sl.X) {
+		return false
+	}
+	mk, ok := a2.Rhs[0].(*ast.CallExpr)
+	return ok && isIdent(mk.Fun, "make") && len(mk.Args) == 2 && isIdent(mk.Args[0], "EntryList") && isIdent(mk.Args[1], n)
 }
 
 var zbName = regexp.MustCompile(`^zb[0-9]+$`)
@@ -431,7 +481,22 @@ func (c *skCtx) block(ss []ast.Stmt) []string {
 				}
 			}
 			out = append(out, c.unknown(s))
+		case *ast.RangeStmt:
+			// for i := range *z { … }: the body runs once per element, in order
+			if c.listLvl && c.top && st.Value == nil && st.Tok == token.DEFINE && c.isRecvList(st.X) {
+				if id, isId := st.Key.(*ast.Ident); isId {
+					c2 := *c.inner()
+					c2.elemIdx = id.Name
+					out = append(out, ".forRange ["+strings.Join(c2.block(st.Body.List), ", ")+"]")
+					continue
+				}
+			}
+			out = append(out, c.unknown(s))
 		case *ast.IfStmt:
+			if c.listLvl && c.top && c.isResize(st) {
+				out = append(out, ".resize")
+				continue
+			}
 			if st.Else != nil {
 				// if msgp.IsNil(bts) { … } else { … } / if dc.IsNil() { … } else { … }
 				eb, isBlock := st.Else.(*ast.BlockStmt)
@@ -752,6 +817,9 @@ func (c *encCtx) encCall(e ast.Expr) (kind, prim, field string, fallible, ok boo
 		if c.szName(a) {
 			return "hdr", "", "", false, true
 		}
+		if ln, isLn := a.(*ast.CallExpr); isLn && c.listLvl && isIdent(ln.Fun, "len") && len(ln.Args) == 1 && c.isRecvList(ln.Args[0]) {
+			return "hdrlen", "", "", false, true
+		}
 		return
 	case ".eventTime":
 		if len(args) != 1 {
@@ -873,6 +941,8 @@ func (c *encCtx) block(ss []ast.Stmt, top bool) []string {
 				out = append(out, ".putNil")
 			case "hdr":
 				out = append(out, ".hdrSz")
+			case "hdrlen":
+				out = append(out, ".hdrLen")
 			case "put":
 				out = append(out, fmt.Sprintf(".put %s %s %s", prim, fld(field), chk))
 			}
@@ -901,6 +971,16 @@ func (c *encCtx) block(ss []ast.Stmt, top bool) []string {
 			if be, isBe := st.Cond.(*ast.BinaryExpr); isBe && be.Op == token.EQL && c.szName(be.X) && st.Else == nil {
 				if v, ok := natLit(be.Y); ok {
 					out = append(out, fmt.Sprintf(".ifSzEq %s [%s]", v, strings.Join(c.block(st.Body.List, false), ", ")))
+					continue
+				}
+			}
+			out = append(out, c.unknown(s))
+		case *ast.RangeStmt:
+			if c.listLvl && top && st.Value == nil && st.Tok == token.DEFINE && c.isRecvList(st.X) {
+				if id, isId := st.Key.(*ast.Ident); isId {
+					c2 := *c
+					c2.elemIdx = id.Name
+					out = append(out, ".forRange ["+strings.Join(c2.block(st.Body.List, false), ", ")+"]")
 					continue
 				}
 			}
@@ -1003,6 +1083,28 @@ func codecSkeletons(repo string) string {
 				fset.Position(fd.Pos()).String()[len(repo)+1:], name, strings.Join(body, ",\n  "))
 		}
 	}
+	b.WriteString("/-! ### EntryList decoders: header, resize, one pass of the body per element -/\n\n")
+	for _, m := range []string{"UnmarshalMsg", "DecodeMsg"} {
+		name := "EntryList_" + m
+		fd := methods["EntryList."+m]
+		if fd == nil || fd.Body == nil || fd.Type.Params == nil || len(fd.Type.Params.List) != 1 || len(fd.Type.Params.List[0].Names) != 1 ||
+			fd.Type.Results == nil || len(fd.Type.Results.List) == 0 || len(fd.Type.Results.List[0].Names) != 1 {
+			fmt.Fprintf(&b, "def %s : List LStmt := [.plain (.unknown \"method not found\")]\n\n", name)
+			continue
+		}
+		c := &skCtx{fset: fset, recv: recvNameOf(fd), in: fd.Type.Params.List[0].Names[0].Name, stream: m == "DecodeMsg",
+			ftypes: structFields(files, fset, "EntryExt"), top: true, named: true, resName: fd.Type.Results.List[0].Names[0].Name, listLvl: true}
+		var body []string
+		for _, st := range c.block(fd.Body.List) {
+			if st == ".resize" || strings.HasPrefix(st, ".forRange ") {
+				body = append(body, st)
+			} else {
+				body = append(body, ".plain ("+st+")")
+			}
+		}
+		fmt.Fprintf(&b, "/-- `(*EntryList).%s`, %s -/\ndef %s : List LStmt := [\n  %s]\n\n", m,
+			fset.Position(fd.Pos()).String()[len(repo)+1:], name, strings.Join(body, ",\n  "))
+	}
 	b.WriteString("/-! ### encoders -/\n\n")
 	for _, ty := range []struct{ goName, lean string }{{"Message", "Message"}, {"MessageExt", "MessageExt"},
 		{"ForwardMessage", "Forward"}, {"PackedForwardMessage", "Packed"}} {
@@ -1029,6 +1131,29 @@ func codecSkeletons(repo string) string {
 			body := encoderSkeleton(fset, repo, fd, ty.goName, m, ft)
 			fmt.Fprintf(&b, "/-- `(%s).%s`, %s -/\ndef %s_%s : List EStmt := [\n  %s]\n\n", ty.goName, m, where, ty.lean, m, strings.Join(body, ",\n  "))
 		}
+	}
+	for _, m := range []string{"MarshalMsg", "EncodeMsg"} {
+		fd := methods["EntryList."+m]
+		name := "EntryList_" + m
+		if fd == nil || fd.Body == nil || fd.Type.Params == nil || len(fd.Type.Params.List) != 1 || len(fd.Type.Params.List[0].Names) != 1 {
+			fmt.Fprintf(&b, "def %s : List LEStmt := [.plain (.unknown \"method not found\")]\n\n", name)
+			continue
+		}
+		par := fd.Type.Params.List[0].Names[0].Name
+		c := &encCtx{skCtx: skCtx{fset: fset, recv: recvNameOf(fd), in: par, stream: m == "EncodeMsg", ftypes: structFields(files, fset, "EntryExt"), listLvl: true}, acc: par, par: par}
+		if m == "MarshalMsg" && fd.Type.Results != nil && len(fd.Type.Results.List) >= 1 && len(fd.Type.Results.List[0].Names) == 1 {
+			c.acc = fd.Type.Results.List[0].Names[0].Name
+		}
+		var body []string
+		for _, st := range c.block(fd.Body.List, true) {
+			if st == ".hdrLen" || strings.HasPrefix(st, ".forRange ") {
+				body = append(body, st)
+			} else {
+				body = append(body, ".plain ("+st+")")
+			}
+		}
+		fmt.Fprintf(&b, "/-- `(EntryList).%s`, %s -/\ndef %s : List LEStmt := [\n  %s]\n\n", m, fset.Position(fd.Pos()).String()[len(repo)+1:], name,
+			strings.Join(body, ",\n  "))
 	}
 	b.WriteString("end FV.Gen.Codec\n")
 	return b.String()
